@@ -151,6 +151,99 @@ fn top_kind(text: &str) -> &'static str {
     }
 }
 
+/// the whole document as `serde_json::from_str::<Value>` reads it (numbers by kind and bits, repeated keys, limits)
+/// against `JsonDoc.docOfLine` (Lean `Model/JsonDoc.lean`, driver kind `jsondoc`)
+pub fn emit_doc(run: &mut Run, text: &str, origin: &str) {
+    let verdict = serde_json::from_str::<serde_json::Value>(text);
+    let (answer, kind) = match &verdict {
+        Ok(v) => { let mut s = String::from("doc "); crate::extract::json_sexp(v, &mut s); (s, "doc") }
+        Err(e) => {
+            let msg = e.to_string();
+            ("notjson".to_owned(), if msg.contains("number out of range") { "number-range" } else if msg.contains("recursion limit") { "recursion-limit" } else { "reject" })
+        }
+    };
+    run.count(&format!("jsondoc:{}:{}", origin, kind));
+    run.case_with_desc(format!("jsondoc {}", hexs(text)), answer, format!("jsondoc:{}:{}:{}", origin, kind, top_kind(text)), format!("serde_json::from_str::<Value>({:?})", text));
+}
+
+/// a JSON number literal aimed at serde_json's number reader: long significands (the u64 boundary, digits dropped),
+/// fractions that do or do not fit, exponents around ±308 / ±324 and beyond i32
+fn gen_doc_number(rng: &mut Rng) -> String {
+    let mut s = String::new();
+    if rng.chance(1, 3) { s.push('-'); }
+    let ni = match rng.below(8) { 0 => 0, 1 => 1, 2 => 19, 3 => 20, 4 => 21, 5 => 1 + rng.below(40), 6 => 15 + rng.below(6), _ => 1 + rng.below(6) };
+    if ni == 0 { s.push('0'); } else {
+        if rng.chance(1, 4) && ni >= 19 {
+            // around u64::MAX / i64::MIN
+            let base: u128 = *rng.pick(&[18446744073709551615u128, 9223372036854775807, 9223372036854775808, 1844674407370955161, 18446744073709551610]);
+            let v = base + rng.below(12) as u128 - 2;
+            s.push_str(&v.to_string());
+            if rng.chance(1, 3) { s.push((b'0' + rng.below(10) as u8) as char); }
+        } else {
+            s.push((b'1' + rng.below(9) as u8) as char);
+            for _ in 1..ni { s.push((b'0' + rng.below(10) as u8) as char); }
+        }
+    }
+    if rng.chance(1, 2) {
+        s.push('.');
+        let nf = match rng.below(6) { 0 => 1, 1 => 2, 2 => 17 + rng.below(6), 3 => 1 + rng.below(40), _ => 1 + rng.below(8) };
+        if rng.chance(1, 5) { for _ in 0..rng.below(25) { s.push('0'); } }
+        for _ in 0..nf { s.push((b'0' + rng.below(10) as u8) as char); }
+    }
+    if rng.chance(1, 2) {
+        s.push(if rng.chance(1, 2) { 'e' } else { 'E' });
+        match rng.below(4) { 0 => s.push('-'), 1 => s.push('+'), _ => {} }
+        let e: u64 = match rng.below(10) { 0 => rng.below(5) as u64, 1 => 290 + rng.below(40) as u64, 2 => 300 + rng.below(12) as u64, 3 => 600 + rng.below(40) as u64, 4 => 2147483640 + rng.below(16) as u64,
+            5 => 4294967290 + rng.below(12) as u64, 6 => rng.below(700) as u64, 7 => 18 + rng.below(8) as u64, _ => rng.below(60) as u64 };
+        if rng.chance(1, 10) { s.push_str("00"); }
+        s.push_str(&e.to_string());
+    }
+    s
+}
+
+pub fn doc_stream(run: &mut Run, rng: &mut Rng, n: usize) {
+    for p in GOOD_NUMBERS.iter().chain(BAD_NUMBERS.iter()) {
+        emit_doc(run, p, "fixed");
+        emit_doc(run, &format!("-{}", p), "fixed");
+        emit_doc(run, &format!("{{\"n\":[{}, {}]}}", p, p), "fixed");
+    }
+    for t in &["-0", "-0.0", "-0e0", "0e99999999999", "0.0e-99999999999", "1e99999999999", "-1e99999999999", "1e-99999999999", "-1e-99999999999", "1e2147483647", "1e2147483648", "1e-2147483648", "1e-2147483649",
+        "1e308", "1e309", "1.7976931348623157e308", "1.7976931348623159e308", "17976931348623157e292", "17976931348623159e292", "179769313486231580793728971405303415079934132710037826936173778980444968292764750946649017977587207096330286416692887910946555547851940402630657488671505820681908902000708383676273854845817711531764475730270069855571366959622842914819860834936475292719074168444365510704342711559699508093042880177904174497791",
+        "2.2250738585072011e-308", "4.9e-324", "2.4703282292062327e-324", "5e-324", "1e-323", "1e-324", "1e-400", "123e-400", "18446744073709551615", "18446744073709551616", "18446744073709551616.5", "18446744073709551615.5", "1844674407370955161.6",
+        "-9223372036854775808", "-9223372036854775809", "-18446744073709551615", "-18446744073709551616", "9007199254740993", "9007199254740993.0", "0.1", "0.3", "1e23", "8.5e22", "4.35", "0.000001", "123456789012345678901234567890e-10", "0.00000000000000000000000000000000000000000000000000000000000000000000000000000000000000000000000000001e100",
+        "{\"k\":1,\"k\":2}", "{\"k\":1,\"j\":3,\"k\":[2],\"j\":{\"k\":null,\"k\":true}}", "{\"a\\u0062\":1,\"ab\":2}", "{\"\":0,\"\":1}", "\u{feff}1", " \t\r\n1\n", "\"\\ud83d\\ude00\"", "\"\\ud800\"", "\"é\\u00e9\"", "[1,[2,[3,{\"a\":[]}]]]"] {
+        emit_doc(run, t, "fixed");
+    }
+    // nesting around serde_json's recursion limit (128)
+    for d in [1usize, 2, 126, 127, 128, 129, 200] {
+        emit_doc(run, &format!("{}{}", "[".repeat(d), "]".repeat(d)), "depth");
+        emit_doc(run, &format!("{}1{}", "[".repeat(d), "]".repeat(d)), "depth");
+        emit_doc(run, &format!("{}{}", "{\"a\":".repeat(d), format!("null{}", "}".repeat(d))), "depth");
+        emit_doc(run, &format!("{}{}", "[{\"a\":".repeat(d / 2), format!("0{}", "}]".repeat(d / 2))), "depth");
+        emit_doc(run, &format!("{}1e999{}", "[".repeat(d), "]".repeat(d)), "depth");
+        emit_doc(run, &format!("{}", "[".repeat(d)), "depth");
+    }
+    for i in 0..n {
+        match i % 4 {
+            0 => {
+                let t = gen_doc_number(rng);
+                if rng.chance(1, 2) { emit_doc(run, &t, "number"); } else { emit_doc(run, &format!("{}{{\"x\":[{}],\"y\":{}}}{}", ws(rng), t, gen_doc_number(rng), ws(rng)), "number"); }
+            }
+            _ => {
+                let mut text = String::new();
+                let mut defect = !rng.chance(1, 4);
+                let planted = !defect;
+                text.push_str(ws(rng));
+                let depth = 1 + rng.below(3);
+                gen_value(rng, depth, &mut text, &mut defect);
+                text.push_str(ws(rng));
+                if rng.chance(1, 5) { let m = mutate(rng, &text); emit_doc(run, &m, "mutated"); }
+                else { emit_doc(run, &text, if planted { "planted" } else { "clean" }); }
+            }
+        }
+    }
+}
+
 fn emit(run: &mut Run, text: &str, origin: &str) {
     let verdict = serde_json::from_str::<serde_json::Value>(text);
     let answer = match &verdict {
